@@ -813,7 +813,7 @@ func c04FuncInCore(it *c04Item) bool {
 		!c04Intersects(c04DefaultNames(it.a), append(c04VarNames(it.b), c04LexNames(it.b)...))
 }
 
-// c04InCore mirrors Spec.core_d (ctx 0), Spec.pcore_d (ctx 1) and Spec.catch_params_only (ctx 2): the fragment
+// c04InCore mirrors Spec.core_x (ctx 0), Spec.pcore_x (ctx 1) and Spec.catch_params_only (ctx 2): the fragment
 // for which resolution_correct_partial is proved
 func c04InCore(l []*c04Item, ctx int) bool {
 	for i, it := range l {
@@ -831,10 +831,24 @@ func c04InCore(l []*c04Item, ctx int) bool {
 				return false
 			}
 		case c04KFunc, c04KArrow:
-			if ctx == 2 || it.kind == c04KFunc && it.nm >= 0 || !c04FuncInCore(it) {
+			if ctx == 2 || !c04FuncInCore(it) {
 				return false
 			}
 			if ctx == 1 && c04Intersects(append(c04AllNames(it.a), c04AllNames(it.b)...), c04HeadNames(l[i+1:])) {
+				return false
+			}
+			if it.kind == c04KFunc && it.nm >= 0 {
+				// the expression name is neither a parameter nor a declaration of the body (nor a later parameter)
+				own := append(append(c04HeadNames(it.a), c04VarNames(it.b)...), c04LexNames(it.b)...)
+				if c04Intersects([]int{it.nm}, own) || ctx == 1 && c04Intersects([]int{it.nm}, c04HeadNames(l[i+1:])) {
+					return false
+				}
+			}
+		case c04KFor:
+			// the head mentions no name the body declares lexically; var names of the head differ from the lexical ones
+			if ctx != 0 || !c04InCore(it.a, 0) || !c04InCore(it.b, 0) ||
+				c04Intersects(c04AllNames(it.a), c04LexNames(it.b)) ||
+				c04Intersects(c04VarNames(it.a), append(c04LexNames(it.a), c04LexNames(it.b)...)) {
 				return false
 			}
 		case c04KCatch:
@@ -854,6 +868,16 @@ func c04InCore(l []*c04Item, ctx int) bool {
 		}
 	}
 	return true
+}
+
+// c04HasLoopOrName: some loop or function-expression name occurs
+func c04HasLoopOrName(l []*c04Item) bool {
+	for _, it := range l {
+		if it.kind == c04KFor || it.kind == c04KFunc && it.nm >= 0 || c04HasLoopOrName(it.a) || c04HasLoopOrName(it.b) {
+			return true
+		}
+	}
+	return false
 }
 
 // c04HasClass: some class body occurs
@@ -951,6 +975,14 @@ var c04ScopeE2EAMModel = &Model{
 		for i, got := 0, 0; i < 40*n && got < n/2; i++ {
 			l := c04GenProgram(r, 3+i%25, false)
 			if c04HasDefaults(l) && c04InCore(l, 0) {
+				got++
+				emit(c04E2eCase("scope_e2e_am", l, "random: "))
+			}
+		}
+		// the fragment with loops and function-expression names
+		for i, got := 0, 0; i < 40*n && got < n/2; i++ {
+			l := c04GenProgram(r, 3+i%25, false)
+			if c04HasLoopOrName(l) && c04InCore(l, 0) {
 				got++
 				emit(c04E2eCase("scope_e2e_am", l, "random: "))
 			}
